@@ -23,6 +23,7 @@ Definition E_CERT : N := 4.     (* certificate does not parse / not RSA / Asymme
 Definition E_EOF : N := 5.      (* CLO *)
 Definition E_NOINST : N := 6.   (* "unable to find instance for SecureChannelID" *)
 Definition E_SEQ : N := 7.      (* "decode sequence header failed" *)
+Definition E_CERTKEY : N := 9.  (* the sender certificate parses but its key is not an RSA key: StatusBadCertificateInvalid *)
 Definition E_BADSEQ : N := 8.   (* ua.StatusBadSequenceNumberInvalid: number not greater than the last accepted one *)
 
 Definition with_last (st : fstate) (n : N) : fstate :=
@@ -44,7 +45,8 @@ Definition asym_fields (b : bytes) : option (bytes * bytes) :=
 
 Section Frame.
   Variable uri_none : bytes -> bool.                       (* uri == ua.SecurityPolicyURINone *)
-  Variable asym_for : bytes -> bytes -> option algo.       (* ParseCertificate + RSA check + uapolicy.Asymmetric; None = error *)
+  Variable cert_class : bytes -> N.                        (* uapolicy.ParseCertificate + key type: 0 does not parse, 1 parses with a non-RSA key, else RSA *)
+  Variable asym_for : bytes -> bytes -> option algo.       (* uapolicy.Asymmetric(uri, local key, the certificate's RSA key); None = error *)
   Variable guards : bool.
 
   Definition vd_with (st : fstate) (a : option algo) (h : chunk_hdr) (b : bytes) : res bytes :=
@@ -100,6 +102,8 @@ Section Frame.
                   let st1 := {| f_mode := f_mode st; f_pnone := uri_none uri; f_opening := f_opening st;
                                 f_insts := f_insts st; f_cap := f_cap st; f_last := f_last st |} in
                   if uri_none uri then finish h st1 (vd_with st1 oa h b)
+                  else if (cert_class cert =? 0)%N then (st1, Err E_CERT)
+                  else if (cert_class cert =? 1)%N then (st1, Err E_CERTKEY)
                   else match asym_for uri cert with
                        | None => (st1, Err E_CERT)
                        | Some al =>
